@@ -11,6 +11,8 @@ pub mod cpu_pinning;
 pub mod privileges;
 #[cfg(feature = "rustls")]
 pub mod rustls_config;
+#[cfg(aquatic_verif)]
+pub mod verif;
 
 /// IndexMap using AHash hasher
 pub type IndexMap<K, V> = indexmap::IndexMap<K, V, RandomState>;
@@ -47,6 +49,11 @@ impl ServerStartInstant {
         Self(Instant::now())
     }
     pub fn seconds_elapsed(&self) -> Option<SecondsSinceServerStart> {
+        #[cfg(aquatic_verif)]
+        if let Some(seconds) = crate::verif::clock() {
+            return Some(SecondsSinceServerStart(seconds));
+        }
+
         Instant::now().checked_duration_since(self.0).map(|dur| {
             let seconds = dur
                 .as_secs()
@@ -133,6 +140,15 @@ pub fn spawn_prometheus_endpoint(
         .spawn(move || {
             use metrics_exporter_prometheus::PrometheusBuilder;
             use metrics_util::MetricKindMask;
+
+            #[cfg(aquatic_verif)]
+            match crate::verif::probe("prometheus.start") {
+                crate::verif::ACTION_RETURN_OK => return Ok(()),
+                crate::verif::ACTION_RETURN_ERR => {
+                    return Err(anyhow::anyhow!("verif: injected prometheus worker error"))
+                }
+                _ => (),
+            }
 
             let rt = ::tokio::runtime::Builder::new_current_thread()
                 .enable_all()
